@@ -1,6 +1,7 @@
 package engrouting
 
 import (
+	"encoding/json"
 	"math"
 	"math/big"
 	"sync/atomic"
@@ -167,6 +168,7 @@ func runStub(outDir string, seed int64, tier string, rep *emit.Report) error {
 		}
 	}
 	runSched(rng, rep, sch.Name, point, &cases, &descr)
+	runHealth(rng, rep, sch.Name, point)
 	req := append([]string{"From DV Require Import Model.Routing Corr.RoutingCorr.", "Open Scope Z_scope."}, in.defs...)
 	return rep.Shard(outDir, "cases_routing_stub", req, "rcase", "mismatches", cases, descr, 1500)
 }
@@ -234,4 +236,101 @@ func runSched(rng *rand.Rand, rep *emit.Report, schName string, point kyber.Poin
 			*descr = append(*descr, name)
 		}
 	}
+}
+
+// runHealth: /{hash}/health and /health on a table holding several chains with DIFFERENT periods
+// and genesis times, one of them also registered as the default entry; then the default entry is
+// removed / moved to another chain. The status a health path reports (the expected round) must be
+// computed from the schedule of the chain the path names, never from another chain's (monitor only).
+func runHealth(rng *rand.Rand, rep *emit.Report, schName string, point kyber.Point) {
+	ctx, cancel := context.WithCancel(log.ToContext(context.Background(), discardLogger()))
+	defer cancel()
+	h, err := dhttp.New(ctx, "verif")
+	if err != nil {
+		rep.Fail("C19-engine", err.Error(), nil)
+		return
+	}
+	now0 := time.Now().Unix()
+	type hc struct {
+		name   string
+		hx     string
+		period int64
+		g      int64
+		bh     *dhttp.BeaconHandler
+	}
+	chains := []*hc{{name: "A", period: 3, g: now0 - 300 - 1}, {name: "B", period: 10, g: now0 - 10000 - 5}, {name: "C", period: 1, g: now0 - 77}, {name: "D", period: 30, g: now0 + 3600}}
+	for _, c := range chains {
+		hash := make([]byte, 32)
+		rng.Read(hash)
+		c.hx = hex.EncodeToString(hash)
+		info := &chain2.Info{PublicKey: point, Period: time.Duration(c.period) * time.Second, Scheme: schName, GenesisTime: c.g, GenesisSeed: []byte("s" + c.name)}
+		c.bh = h.RegisterNewBeaconHandler(&stubClient{tag: 1, info: info}, c.hx)
+	}
+	cur := func(c *hc, now int64) uint64 {
+		if now < c.g {
+			return 0
+		}
+		return uint64((now-c.g)/c.period) + 1
+	}
+	var hist []string
+	probe := func(def *hc) {
+		for _, c := range append([]*hc{nil}, chains...) {
+			path, named := "/health", def
+			if c != nil {
+				path, named = "/"+c.hx+"/health", c
+			}
+			before := time.Now().Unix()
+			rec := httptest.NewRecorder()
+			rctx, rcancel := context.WithTimeout(context.Background(), 5*time.Second)
+			h.GetHTTPHandler().ServeHTTP(rec, httptest.NewRequest(http.MethodGet, path, nil).WithContext(rctx))
+			rcancel()
+			after := time.Now().Unix()
+			rep.Evaluations++
+			rep.DistinctNontrivial++
+			label := path
+			if c != nil {
+				label = "/<hash of " + c.name + ">/health"
+			}
+			what := fmt.Sprintf("%s; GET %s", strings.Join(hist, "; "), label)
+			if named == nil {
+				rep.Count("health/no-default")
+				if rec.Code != http.StatusNotFound {
+					rep.Fail("C19-http-stale-after-removal", fmt.Sprintf("/health answered %d although no default chain is registered", rec.Code), what)
+				}
+				continue
+			}
+			var body map[string]uint64
+			raw, _ := io.ReadAll(rec.Result().Body)
+			if rec.Code == http.StatusNotFound || json.Unmarshal(raw, &body) != nil {
+				rep.Fail("C19-http-running-chain-unreachable", fmt.Sprintf("health of registered chain %s answered %d", named.name, rec.Code), what)
+				continue
+			}
+			rep.Count("health/chain-" + named.name)
+			lo, hi := cur(named, before), cur(named, after)
+			// common.CurrentRound answers 1 before genesis (round 0 only for the schedule above)
+			if lo == 0 {
+				lo, hi = 0, 1
+			}
+			if e := body["expected"]; e < lo || e > hi {
+				other := ""
+				for _, o := range chains {
+					if o != named && e >= cur(o, before) && e <= cur(o, after) && cur(o, before) > 0 {
+						other = " (it is the current round of chain " + o.name + ")"
+					}
+				}
+				rep.Fail("C19-http-health-of-another-chain", fmt.Sprintf("health under the hash of chain %s (period %ds) reports expected round %d, that chain's current round is %d..%d%s", named.name, named.period, e, lo, hi, other), what)
+			}
+		}
+	}
+	hist = append(hist, "register A(3s) B(10s) C(1s) D(30s, genesis in the future) by hash")
+	probe(nil)
+	h.RegisterDefaultBeaconHandler(chains[0].bh)
+	hist = append(hist, "A also registered as default")
+	probe(chains[0])
+	h.RemoveBeaconHandler("default")
+	hist = append(hist, "default entry removed")
+	probe(nil)
+	h.RegisterDefaultBeaconHandler(chains[1].bh)
+	hist = append(hist, "B registered as default")
+	probe(chains[1])
 }
